@@ -3,8 +3,8 @@ import BppModel.Prelude.Scalar
 # Model of `Bpp/Numeric/Matrix/Matrix.h` and of `Bpp/Numeric/Matrix/MatrixTools.h`
 
 A transcription of the code that exists *after* the `fix:` commits listed in `findings/C04.json`
-(the pre-repair text of every repaired routine is kept next to it with suffix `Orig`; the witness
-theorems of `Props/C04.lean` are about those).  Generic over `[Scalar α]`: run at `Float`
+(the pre-repair text of four repaired routines is kept next to them with suffix `Orig`: the witness
+theorems at the end of `Props/C04.lean` are about those).  Generic over `[Scalar α]`: run at `Float`
 (bit-exact tie) and `Rat` by the driver, reasoned about at `ℝ` in `BppProofs`.  Core Lean only.
 
 ## Storage classes (`Matrix.h:92, 200, 318`)
@@ -219,16 +219,6 @@ def collect {β : Type} (n : Nat) (f : Nat → Res β) : Res (Array β) :=
 def copy (A O : Store α) : Res (Store α) :=
   fill (O.resize A.nrows A.ncols) A.nrows A.ncols fun i j => A.get i j
 
-/-- `copyUp` before the repair (`MatrixTools.h:55-70`): `nr - 1` wraps around for `nr = 0`; the
-first iteration then reads `A(1, 0)` if there is a column (otherwise the loop body is empty: `2^64`
-idle iterations, then a normal return) -/
-def copyUpOrig (A O : Store α) : Res (Store α) :=
-  let nr := A.nrows; let nc := A.ncols
-  if nr = 0 then (if nc = 0 then .ok (O.resize nr nc) else .error .ub) else
-  match fillBlock (O.resize nr nc) 0 0 (nr - 1) nc (fun i j => A.get (i + 1) j) with
-  | .ok O1 => fillBlock O1 (nr - 1) 0 1 nc fun _ _ => .ok zero
-  | .error e => .error e
-
 /-- `copyUp` (`MatrixTools.h:55-72`): `O(i,j) = A(i+1,j)`, last row `0` -/
 def copyUp (A O : Store α) : Res (Store α) :=
   let nr := A.nrows; let nc := A.ncols
@@ -236,13 +226,6 @@ def copyUp (A O : Store α) : Res (Store α) :=
   if nr = 0 then .ok O0 else
   match fillBlock O0 0 0 (nr - 1) nc (fun i j => A.get (i + 1) j) with
   | .ok O1 => fillBlock O1 (nr - 1) 0 1 nc fun _ _ => .ok zero
-  | .error e => .error e
-
-/-- `copyDown` before the repair: writes `O(0, j)` of a matrix without rows -/
-def copyDownOrig (A O : Store α) : Res (Store α) :=
-  let nr := A.nrows; let nc := A.ncols
-  match fillBlock (O.resize nr nc) 1 0 (nr - 1) nc (fun i j => A.get i j) with
-  | .ok O1 => fillBlock O1 0 0 1 nc fun _ _ => .ok zero
   | .error e => .error e
 
 /-- `copyDown` (`MatrixTools.h:81-98`): `O(i,j) = A(i-1,j)`, first row `0` -/
@@ -335,11 +318,6 @@ def multCBody (A iA B iB O iO : Store α) : Res (Store α × Store α) :=
     | .error e => .error e
     | .ok iO1 => .ok (O1, iO1)
 
-/-- complex-pair `mult` before the repair (`MatrixTools.h:253-275`): the sizes of `iA`, `iB` are
-not looked at -/
-def multCOrig (A iA B iB O iO : Store α) : Res (Store α × Store α) :=
-  if A.ncols ≠ B.nrows then .error .dimension else multCBody A iA B iB O iO
-
 /-- `mult(A, iA, B, iB, O, iO)` (`MatrixTools.h:253-277`) -/
 def multC (A iA B iB O iO : Store α) : Res (Store α × Store α) :=
   if A.ncols ≠ B.nrows then .error .dimension
@@ -371,19 +349,6 @@ def multCDTerm (re : Bool) (A iA : Store α) (D iD : Array α) (B iB : Store α)
 
 def multCDAt (re : Bool) (A iA : Store α) (D iD : Array α) (B iB : Store α) (i j : Nat) : Res α :=
   dot A.ncols fun k => multCDTerm re A iA D iD B iB i j k
-
-/-- complex-pair `mult` with a diagonal factor before the repairs (`MatrixTools.h:331-358` of the
-unrepaired file): `iO` is written without having been sized, `iA`, `iB`, `iD` are not checked -/
-def multCDOrig (A iA : Store α) (D iD : Array α) (B iB O iO : Store α) : Res (Store α × Store α) :=
-  if A.ncols ≠ B.nrows then .error .dimension
-  else if A.ncols ≠ D.size then .error .dimension
-  else
-    match fill (O.resize A.nrows B.ncols) A.nrows B.ncols (multCDAt true A iA D iD B iB) with
-    | .error e => .error e
-    | .ok O1 =>
-      match fill iO A.nrows B.ncols (multCDAt false A iA D iD B iB) with
-      | .error e => .error e
-      | .ok iO1 => .ok (O1, iO1)
 
 /-- `mult(A, iA, D, iD, B, iB, O, iO)` (`MatrixTools.h:335-366`) -/
 def multCD (A iA : Store α) (D iD : Array α) (B iB O iO : Store α) : Res (Store α × Store α) :=
@@ -684,12 +649,6 @@ def hadCBody (A iA B iB O iO : Store α) : Res (Store α × Store α) :=
     | .error e => .error e
     | .ok iO1 => .ok (O1, iO1)
 
-/-- complex-pair `hadamardMult` before the repair: `iA`, `iB` unchecked -/
-def hadCOrig (A iA B iB O iO : Store α) : Res (Store α × Store α) :=
-  if A.nrows ≠ B.nrows then .error .dimension
-  else if A.ncols ≠ B.ncols then .error .dimension
-  else hadCBody A iA B iB O iO
-
 /-- `hadamardMult(A, iA, B, iB, O, iO)` (`MatrixTools.h:1056-1076`) -/
 def hadC (A iA B iB O iO : Store α) : Res (Store α × Store α) :=
   if A.nrows ≠ B.nrows then .error .dimension
@@ -708,9 +667,9 @@ def hadV (A : Store α) (v : Array α) (O : Store α) (row : Bool) : Res (Store 
     | .error e, _ => .error e
     | _, .error e => .error e
 
-/-- the four block loops of `directSum`; `w` = number of columns copied from `B`
-(`nrB` in the unrepaired text, `ncB` after the repair) -/
-def dsumGen (w : Nat) (A B O : Store α) : Res (Store α) :=
+/-- `directSum(A, B, O)` (`MatrixTools.h:1124-1163`): four block loops (`A`, zeros right of it, zeros
+below it, `B`; the last one ran `jb < nrB` before the repair) -/
+def dsum (A B O : Store α) : Res (Store α) :=
   let nrA := A.nrows; let ncA := A.ncols; let nrB := B.nrows; let ncB := B.ncols
   match fillBlock (O.resize (nrA + nrB) (ncA + ncB)) 0 0 nrA ncA (fun i j => A.get i j) with
   | .error e => .error e
@@ -720,13 +679,7 @@ def dsumGen (w : Nat) (A B O : Store α) : Res (Store α) :=
   | .ok O2 =>
   match fillBlock O2 nrA 0 nrB ncA (fun _ _ => .ok zero) with
   | .error e => .error e
-  | .ok O3 => fillBlock O3 nrA ncA nrB w (fun i j => B.get i j)
-
-/-- `directSum(A, B, O)` before the repair: the last block loops `jb < nrB` -/
-def dsumOrig (A B O : Store α) : Res (Store α) := dsumGen B.nrows A B O
-
-/-- `directSum(A, B, O)` (`MatrixTools.h:1124-1163`) -/
-def dsum (A B O : Store α) : Res (Store α) := dsumGen B.ncols A B O
+  | .ok O3 => fillBlock O3 nrA ncA nrB ncB (fun i j => B.get i j)
 
 /-- one block of the n-ary direct sum: `O(rk + i, ck + j) = Ak(i, j)`, then `rk += rows`, `ck += cols`
 (`MatrixTools.h:1191-1203`) -/
